@@ -946,6 +946,20 @@ class Engine:
     def e_Name(self, e, fr):
         return self.lookup(e.id, fr)
 
+    def loop_guard_holds(self, s, fr, props=("*",)):
+        """For a loop whose contract says it is left only by break / return (written `while True:` on the pinned tree): at
+        the head of the generic iteration the guard must hold.  A guard that can be false there is an exit the contract does
+        not know -- a failed obligation."""
+        t = s.test
+        if isinstance(t, ast.Constant) and t.value is True:
+            return
+        c = self.truth(self.eval(t, fr))
+        if not self.decide(c if not isinstance(c, bool) else z3.BoolVal(c)):
+            self.prove("loop:%s:left-only-by-break-or-return(the-guard-`%s`-can-be-false)" % (
+                fr.fi.qualname.split(".", 1)[-1] if fr.fi else "?", ast.unparse(t)[:60]), False, props=props,
+                where="%s:%d" % (fr.file, s.lineno))
+            raise PathEnd()
+
     def havoc_loop_locals(self, s, fr, keep=()):
         """Start of the generic loop iteration: every local assigned in the body
         (and not given a value by the invariant) is unknown."""
@@ -1261,8 +1275,15 @@ class Engine:
     def e_BinOp(self, e, fr):
         return self.binop(e.op, self.eval(e.left, fr), self.eval(e.right, fr), e)
 
+    @staticmethod
+    def _carried(v):
+        return isinstance(v, Opq) and isinstance(v.tag, str) and v.tag.startswith("carried-over:")
+
     def binop(self, op, a, b, node=None):
         a, b = self.force(a), self.force(b)
+        if self._carried(a) or self._carried(b):
+            # arithmetic on a value carried over from an earlier loop iteration that no invariant describes: some value
+            return Opq(tag="carried-over:derived")
         if type(a).__name__ == "NpArr" or type(b).__name__ == "NpArr":
             from . import npmodel
             return npmodel.arr_binop(self, op, a, b)
@@ -1496,6 +1517,9 @@ class Engine:
 
     def compare(self, op, a, b, node=None):
         a, b = self.force(a), self.force(b)
+        if (self._carried(a) or self._carried(b)) and not isinstance(op, (ast.Is, ast.IsNot)):
+            # ... and a comparison with it may come out either way
+            return z3.Bool(fresh_name("carried.cmp"))
         if type(a).__name__ == "NpArr" and not type(b).__name__ == "NpArr":
             from . import npmodel
             fn = {ast.GtE: lambda x, y: x >= y, ast.Gt: lambda x, y: x > y, ast.LtE: lambda x, y: x <= y,
